@@ -413,6 +413,20 @@ C16_Create(pre, ev, post) ==
                         /\ e.pair \notin Pairs(pre)
         /\ (x = y \/ RegHas(pre, x, y)) => ~TxOk(ev)
 
+\* what the creator asked for is what is recorded and what the pair charges: an explicit commission rate (any value
+\* in [0,1], zero included), the whitelist and the first-deposit minimums
+C16_Requested(pre, ev, post) ==
+    (Kind(ev) = "fac_create_pair" /\ TxOk(ev) /\ RegHas(post, ev.op.infos[1], ev.op.infos[2])) =>
+        LET e == RegEntry(post, ev.op.infos[1], ev.op.infos[2]) IN
+        /\ ev.op.commission.some =>
+              /\ e.commission = ev.op.commission.v
+              /\ e.pair \in Pairs(post) => post.pair[e.pair].commission = ev.op.commission.v
+        /\ e.wl = Range(ev.op.whitelist) /\ e.m0 = ev.op.min0 /\ e.m1 = ev.op.min1
+C06_ConfiguredRate(pre, ev, post) ==
+    (Kind(ev) = "fac_create_pair" /\ TxOk(ev) /\ ev.op.commission.some /\ RegHas(post, ev.op.infos[1], ev.op.infos[2])) =>
+        LET e == RegEntry(post, ev.op.infos[1], ev.op.infos[2]) IN
+        e.pair \in Pairs(post) => post.pair[e.pair].commission = ev.op.commission.v
+
 RecMatches(w, rec, e) ==
     /\ rec.pair = e.pair /\ rec.a0 = e.a0 /\ rec.a1 = e.a1 /\ rec.lp = e.lp
     /\ rec.d0 = e.d0 /\ rec.d1 = e.d1 /\ rec.commission = e.commission
